@@ -1270,6 +1270,41 @@ def run(tier, seed):
     n = 60 if tier == 'quick' else 2000
     phase('random combinations', eng.random_combinations, specs, rnd, n, '@%s:%d' % (tier, seed))
     phase('registered defaults', eng.registered_defaults)
+
+    def behavioural_equivalence():
+        """keyword and dictionary forms of one configuration are the same grader: same configuration AND same verdicts (options that select behaviour
+        outside the stored configuration -- MatrixGrader's entry_partial_credit / entry_partial_msg choose the comparer -- are only visible in the verdicts)"""
+        mgm_ = rtcheck.real_module('mitxgraders/formulagrader/matrixgrader.py')
+        fgm_ = rtcheck.real_module('mitxgraders/formulagrader/formulagrader.py')
+        sgm_ = rtcheck.real_module('mitxgraders/stringgrader.py')
+        cases = [
+            (mgm_.MatrixGrader, dict(answers='[[1, 2], [3, 4]]', max_array_dim=2, entry_partial_credit='proportional'), ['[[1, 2], [3, 4]]', '[[1, 2], [3, 5]]', '[[0, 0], [0, 0]]', '[1, 2]']),
+            (mgm_.MatrixGrader, dict(answers='[1, 2, 3]', entry_partial_credit=0.5, entry_partial_msg='some entries are off'), ['[1, 2, 3]', '[1, 2, 4]', '[9, 9, 9]']),
+            (mgm_.MatrixGrader, dict(answers='[1, 2, 3]', entry_partial_msg='entries: {error_indices}'), ['[1, 2, 3]', '[1, 0, 3]']),
+            (fgm_.FormulaGrader, dict(answers='x + 1', variables=['x'], tolerance='1%', samples=3), ['x + 1', '1.001*(x + 1)', 'x']),
+            (sgm_.StringGrader, dict(answers='Cat', case_sensitive=False, strip_all=True), ['cat', ' C a t ', 'dog']),
+        ]
+        for cls, cfg, inputs in cases:
+            try:
+                by_kw, by_dict, by_config = cls(**copy.deepcopy(cfg)), cls(copy.deepcopy(cfg)), None
+                by_config = cls(by_kw.config)
+            except Exception as e:
+                t.fail('kwargs/dict/config behavioural equivalence', (cls.__name__, repr(sorted(cfg))), '%s(%r): construction failed in one form: %s: %s' % (cls.__name__, cfg, type(e).__name__, str(e)[:150]))
+                continue
+            for inp in inputs:
+                outs = []
+                for g in (by_kw, by_dict, by_config):
+                    try:
+                        r = g(None, inp)
+                        outs.append((r['ok'], round(r['grade_decimal'], 9), r['msg']))
+                    except Exception as e:
+                        outs.append((type(e).__name__, str(e)[:80]))
+                key = (cls.__name__, repr(sorted(cfg)), inp)
+                ok = outs[0] == outs[1] == outs[2] and by_kw.config == by_dict.config
+                (t.ok if ok else t.fail)('kwargs/dict/config behavioural equivalence', key, *([] if ok else [
+                    '%s with options %r on %r: keyword form %r, dictionary form %r, rebuilt from obj.config %r (must all agree)' % (cls.__name__, cfg, inp, outs[0], outs[1], outs[2])]))
+    import copy
+    phase('behavioural equivalence', behavioural_equivalence)
     for shown, e in {a: b for a, b in L.broken}.items():
         t.fail('fixture', shown[:200], 'the documented configuration %s could not be constructed: %s: %s' % (shown[:300], type(e).__name__, str(e)[:200]))
     return t.report(rule="per public class a table of options transcribed from the documentation (default, in-domain pool with the documented stored form, out-of-domain pool); "
